@@ -65,7 +65,7 @@ starts in and the Job `jo` in the controller's cache at that moment:
 In the first four cases `jo` is started and not being deleted. -/
 theorem pod_delete_justified {ok : Sys → Action → Prop} {j0 : JobObj} {s : Sys} (hr : Reach ok j0 s)
     (c : Call) (hc : c ∈ (step s .work).calls) (hv : c.verb = "delete") (hres : c.res = "pods") :
-    ∃ jo t p, s.jobCache = some jo ∧ t.name = c.name ∧ podTask p = some t ∧ p.ownerUid = some j0.uid ∧
+    ∃ jo t p, s.jobCache = some jo ∧ t.name = c.name ∧ podTask s.clock p = some t ∧ p.ownerUid = some j0.uid ∧
       PodDeleteWhy s jo c t := by
   obtain ⟨jo, t, p, hjo, hn, hpt, ho, hwhy⟩ := pod_delete_why s c hc hv hres
   have hu := ((base_of_reach hr).seenOK jo (mem_seenVers_cache hjo)).1.uid
@@ -140,14 +140,14 @@ the record NOR the pod shows that it has begun running:
 * the ref the controller's cached Job RECORDS under the task's name, if any, carries neither a running nor a
   finish timestamp — a task recorded as running is never reaped as `PendingTimeout`, even when its container
   has since failed and waits to be restarted (CrashLoopBackOff: no running container);
-* the pod of that name controlled by the Job, as the pass read it (`podTask p' = some t'`), reports no
+* the pod of that name controlled by the Job, as the pass read it (`podTask s.clock p' = some t'`), reports no
   container start — `GetContainerStartTime` now also reads `LastTerminationState.Terminated.StartedAt`, so a
   container that started and failed between two passes counts as started — and no finish time. -/
 theorem pending_only_never_ran {ok : Sys → Action → Prop} {j0 : JobObj} {s : Sys} (hr : Reach ok j0 s)
     (c : Call) (hc : c ∈ (step s .work).calls) (hv : c.verb = "delete") (hres : c.res = "pods") (hf : c.force = false) :
     ∃ jo : JobObj, s.jobCache = some jo ∧
       (jo.job.deletionTimestamp = none → (¬ ∃ k : Int, jo.job.killTimestamp = some k ∧ k ≤ s.clock) →
-        (∃ (t' : Task) (p' : PodObj), t'.name = c.name ∧ podTask p' = some t' ∧ p'.ownerUid = some j0.uid ∧
+        (∃ (t' : Task) (p' : PodObj), t'.name = c.name ∧ podTask s.clock p' = some t' ∧ p'.ownerUid = some j0.uid ∧
           t'.ref.runningTimestamp = none ∧ t'.ref.finishTimestamp = none ∧
           (∀ e, lookupRef jo.job.status.tasks c.name = some e → e.runningTimestamp = none ∧ e.finishTimestamp = none)) ∨
         ∃ rj' : Job, rj'.killTimestamp = jo.job.killTimestamp ∧ rj'.template = jo.job.template ∧
